@@ -162,5 +162,5 @@ Section Generic.
   Fixpoint mism_from (n : N) (cases : list A) : list N :=
     match cases with [] => [] | c :: r => if f c then mism_from (N.succ n) r else n :: mism_from (N.succ n) r end.
 End Generic.
-Definition mismatches := mism_from (fun c => AnaCross.ana_cross (c6_prog c) (c6_ana c) && chk_model c && chk_files c) 0%N.
+Definition mismatches := mism_from (fun c => AnaCross.ana_cross_e (c6_prog c) (c6_enums c) (c6_ana c) && chk_model c && chk_files c) 0%N.
 Definition prop_failures := mism_from chk_prop 0%N.
